@@ -52,6 +52,19 @@ func (h *hookLog) load(ref ogorek.Ref) (any, error) {
 			return UserObj{Tag: idx}, nil
 		}
 		return nil, nil
+	case 5:
+		// the registry hook of the model (Model/Norm.v inv_load): the object is a function of the id only
+		switch p := ref.Pid.(type) {
+		case string:
+			tag := 0
+			for i := 0; i < len(p); i++ {
+				tag = (tag*31 + int(p[i])) % 1000003
+			}
+			return UserObj{Tag: tag}, nil
+		case ogorek.Tuple:
+			return UserObj{Tag: 2000000 + len(p)}, nil
+		}
+		return nil, nil
 	}
 	panic("bad load mode")
 }
